@@ -240,6 +240,45 @@ def run(rep, tier):
             rep.ok("C16.R2", h, "%s rejects invalid values with command_line_error" % hname)
         else:
             rep.bad("C16.R2", h, h.loc, "invalid:" + hname, "%s no longer rejects invalid values (%s) with an error" % (hname, what))
+    # handlers that translate keywords (all / cores / a number): with the option present the returned value is
+    # (re)assigned after the option was read on every returning path - whatever branch the keyword takes
+    for hname, opt in (("handle_num_threads", "pika:threads"), ("handle_num_cores", "pika:cores")):
+        h = handlers.get(hname)
+        if h is None:
+            raise AnalysisBroken("handler %s not found" % hname)
+        leaves = [a for _, a, _ in cond_leaves(h) if "count(" in a and opt in a]
+        if not leaves:
+            raise AnalysisBroken("%s: branch on vm.count(\"%s\") not found" % (hname, opt))
+        atom = leaves[0]
+        inverted = bool(re.match(r"^0 == ", atom)) or atom.endswith(" == 0")
+        stale = []
+        npaths = 0
+        for evs, end in eval_walk(h, h.entry, atom_env={atom: (not True) if inverted else True}, max_paths=256):
+            if end != "return":
+                continue
+            ret = evs[-1][2]
+            v0 = strip(ret.get("e"))
+            if not (isinstance(v0, dict) and v0.get("k") == "var"):
+                continue
+            seq = [e for _, _, e in evs]
+            rd = [k_ for k_, e in enumerate(seq) if e.get("k") in ("decl", "write", "call") and ('vm["%s"]' % opt) in T(e.get("init") or e.get("rhs") or e)]
+            if not rd:
+                continue
+            npaths += 1
+            # definitions that do not merely transform the old value (threads = max(threads, min) keeps what it had)
+            selfref = re.compile(r"(?<![\w.>])%s(?![\w(])" % re.escape(v0["name"]))
+            defs = [k_ for k_, e in enumerate(seq) if (e.get("k") == "decl" and e.get("var") == v0["name"]) or
+                    (e.get("k") == "write" and P(e["lhs"]) == v0["name"] and e.get("op", "=") == "=" and not selfref.search(T(e.get("rhs"))))]
+            if not defs or max(defs) < min(rd):
+                stale.append(loc_of(ret))
+        if npaths == 0:
+            raise AnalysisBroken("%s: no returning path reads vm[\"%s\"]" % (hname, opt))
+        if stale:
+            rep.bad("C16.R2", h, h.loc, "stale-result:" + hname, "%s: with --%s given there are returning paths on which the result still holds the value computed from the "
+                    "environment / configuration (not assigned after the option was read): e.g. a keyword value ('all', 'cores') does not override PIKA_THREADS or "
+                    "--pika:ini=pika.os_threads=N" % (hname, opt))
+        else:
+            rep.ok("C16.R2", h, "%s: on all %d returning paths with --%s given the result is assigned after the option was read" % (hname, npaths, opt), sites=npaths)
     hn = handlers.get("handle_num_threads")
     keys = {s for kind, s, ev, pos in vm_keys(hn)}
     if "pika:threads" in keys and any("pika.os_threads" in literals(e) for _, _, e in hn.all_events() if e.get("k") in ("call", "decl")):
